@@ -467,6 +467,15 @@ def rule_r9(repo, run):
     run.floor(R, "decided rows of the default-intent table", n, 6)
 
 
+def rule_x(repo, run):
+    R = run.rule("C02.R10", "every overloaded, defaulted and templated signature keeps its own documented C name "
+                            "(C08.R1-R3)")
+    from checks import c08
+    from sa.report import import_rules
+    import_rules(run, R, c08, repo, {"C08.R1", "C08.R2", "C08.R3"},
+                 only=lambda c: not c.startswith(("docs/", "wrapf.")) and "F_name" not in c and "PY_" not in c and "LUA_" not in c)
+
+
 def run(repo, run, tier):
     tables.check_model_assumptions(repo)
     table = tables.StatementTable(repo, "statements", "fc_statements")
@@ -480,3 +489,4 @@ def run(repo, run, tier):
     rule_r7(repo, run)
     rule_r8(repo, run)
     rule_r9(repo, run)
+    rule_x(repo, run)
